@@ -480,6 +480,19 @@ class C05(PropCheck):
             w = World(case)
             st = stackscope.extract(w.obj(case["x"]), with_contexts=case.get("wc", False))
             self._last = (w, st)
+            self._twin = None
+            if any(d.get("uw") and d["uw"][0] == "iter" and d["uw"][2] is not None for d in case["items"]):
+                # a frame source that raises after the items it produced: everything it had produced lies outward of the
+                # failure, so the frames are those of the same world in which the source simply ends there
+                twin = json.loads(json.dumps(case))
+                for d in twin["items"]:
+                    if d.get("uw") and d["uw"][0] == "iter":
+                        d["uw"][2] = None
+                tw = World(twin)
+                try:
+                    self._twin = tw.show_stack(stackscope.extract(tw.obj(twin["x"]), with_contexts=twin.get("wc", False)))
+                except Exception as e:  # noqa: BLE001
+                    self._twin = f"twin raised {type(e).__name__}"
             return w.show_stack(st)
         if case["k"] == "sweep":
             return self.run_sweep(case)
@@ -698,7 +711,13 @@ class C05(PropCheck):
             if not isinstance(real, str) or not real.startswith("frames="):
                 return f"extract did not return a Stack: {real!r}"[:300]
             w, st = self._last
-            return common_checks(st, None)
+            f = common_checks(st, None)
+            if f is None and self._twin is not None:
+                cut = lambda t: t[:t.index(" errors=[")] if " errors=[" in t else t
+                if cut(real) != cut(self._twin):
+                    f = ("a frame source raised after producing items: frames outward of the failure differ from the extraction "
+                         f"in which the source just ends there: {cut(real)} vs {cut(self._twin)}")
+            return f
         if isinstance(real, dict):
             probs = real.get("problems") or []
             f13 = [p for p in probs if "not retrievable" in p and "inside a nested extract_outermost" in p]
